@@ -248,7 +248,7 @@ func in(errBuf *strings.Builder, validName, objName, fieldName string, tv reflec
 
 	// 取右括号的下标
 	rightBracketIndex := strings.LastIndex(val, ")")
-	if leftBracketIndex == -1 || rightBracketIndex == -1 {
+	if leftBracketIndex == -1 || rightBracketIndex == -1 || rightBracketIndex < leftBracketIndex {
 		errBuf.WriteString(GetJoinFieldErr(objName, fieldName, useErrMsg))
 		return
 	}
@@ -529,6 +529,11 @@ func Re(errBuf *strings.Builder, validName, objName, fieldName string, tv reflec
 		if v != '\\' && validName[next] == '\'' {
 			break
 		}
+	}
+
+	if i >= l { // 单引号后没有内容
+		errBuf.WriteString(GetJoinFieldErr(objName, fieldName, reErr))
+		return
 	}
 
 	pattern := string(b)
